@@ -266,6 +266,8 @@ def compare(role: str, edge: t.Dict[str, t.Any], obs: t.Dict[str, t.Any]) -> t.L
         # the one deviation the suite pins (tests/test_session.py::test_fail_server_responds_to_unknown_request)
         diffs.append(("C08", "refused-response-opens/server", f"{where}: the refused call moved the session BEFORE_OPEN -> OPENED although nothing was sent"))
     elif obs["state"] != dst["st"]:
+        if op == "recv" and got_res not in ("ok", "LDAPError") and obs["state"] != "CLOSED" and not closed:
+            diffs.append(("C05", f"fail-open/{role}/{src['st']}/{got_res}", f"{where}: receive raised {got_res} but the session is {obs['state']}, not CLOSED"))
         diffs.append(("C08", f"state/{role}/{src['st']}/{op}/{call.get('k', '')}/{exp_res}/{dst['st']}->{obs['state']}",
                       f"{where} ({exp_res}): state is {obs['state']}, the documented state machine gives {dst['st']}"))
     return diffs
